@@ -3,6 +3,10 @@
 (* Mode "res": every certificate is correctly issued, resources and policies    *)
 (* vary at every level.  Mode "id": resources fixed, every identity facet of    *)
 (* the certificate at the chosen level varies (single and multiple tampers).    *)
+(* Instants are counted in half units: certificates carry whole units (0, 2, 4),*)
+(* the evaluation instant is 2 or, in the identity modes, also 3 - an instant   *)
+(* strictly between two representable certificate times (X.509 times have whole *)
+(* seconds, the clock has not; realised as one unit plus half a second).        *)
 EXTENDS CertChain, Json
 CONSTANT Mode
 A3 == Atom
@@ -11,22 +15,25 @@ ResChoices == {Res("missing", {}), Res("inherit", {})} \cup {Res("blocks", s) : 
 Few == {Res("missing", {}), Res("inherit", {}), Res("blocks", {"a1"}), Res("blocks", {"a1", "a3"})}
 Good(kind, key, issKey, res, policy) ==
     [kind |-> kind, key |-> key, sigKey |-> issKey, aki |-> issKey, skiOk |-> TRUE, tamper |-> "none",
-     nb |-> 0, na |-> 2, policy |-> policy, res |-> res]
+     nb |-> 0, na |-> 4, policy |-> policy, res |-> res]
 VARIABLES chain,     \* validated issuers so far: [key, eff]
           certs,     \* the certificates offered so far, with the verdict: [cert, ok, eff]
           now, dead  \* dead: the last certificate was rejected
 vars == <<chain, certs, now, dead>>
-Init == chain = <<>> /\ certs = <<>> /\ now = 1 /\ dead = FALSE
+Init == chain = <<>> /\ certs = <<>> /\ now \in (IF Mode = "res" THEN {2} ELSE {2, 3}) /\ dead = FALSE
 Offer(c, ok, eff) == /\ certs' = Append(certs, [cert |-> c, ok |-> ok, eff |-> eff])
                      /\ IF ok THEN chain' = Append(chain, [key |-> c.key, eff |-> eff]) /\ dead' = FALSE
                               ELSE chain' = chain /\ dead' = TRUE
 TaRes == {[v4 |-> a, v6 |-> Res("blocks", {"a1", "a2"}), as |-> b] : a \in {Res("blocks", A3), Res("blocks", {"a1", "a2"})},
                                                                      b \in {Res("blocks", A3), Res("missing", {})}}
-           \cup {[v4 |-> Res("inherit", {}), v6 |-> Res("blocks", {"a1"}), as |-> Res("blocks", A3)]}
+           \cup {[v4 |-> Res("inherit", {}), v6 |-> Res("blocks", {"a1"}), as |-> Res("blocks", A3)],
+                 [v4 |-> Res("blocks", A3), v6 |-> Res("inherit", {}), as |-> Res("blocks", A3)],
+                 [v4 |-> Res("blocks", A3), v6 |-> Res("blocks", {"a1"}), as |-> Res("inherit", {})],
+                 [v4 |-> Res("missing", {}), v6 |-> Res("inherit", {}), as |-> Res("missing", {})]}
 IdVariants(base, issKey) ==
     {[base EXCEPT !.sigKey = sk, !.aki = ak, !.skiOk = so, !.tamper = tp, !.nb = nb, !.na = na] :
         sk \in Keys, ak \in Keys \cup {NoKey}, so \in BOOLEAN, tp \in {"none", "sigbit", "tbsbyte"},
-        nb \in 0..2, na \in 0..2}
+        nb \in {0, 2, 4}, na \in {0, 2, 4}}
 ValidateTA ==
     /\ chain = <<>> /\ ~dead /\ certs = <<>>
     /\ \E r \in (IF Mode = "res" THEN TaRes ELSE {[v4 |-> Res("blocks", A3), v6 |-> Res("blocks", {"a1", "a2"}), as |-> Res("blocks", A3)]}) :
@@ -65,9 +72,9 @@ TaNoInherit == Len(certs) >= 1 /\ certs[1].ok => \A f \in Fams : certs[1].cert.r
 Tampered(c, d) == Cardinality({x \in {"sigKey", "aki", "skiOk", "tamper", "nb", "na"} : c[x] # d[x]}) >= 1
 SinglePoint == Len(certs) >= 2 =>
                  LET c == certs[Len(certs)].cert  iss == chain[IF certs[Len(certs)].ok THEN Len(chain) - 1 ELSE Len(chain)]
-                     good == [c EXCEPT !.sigKey = iss.key, !.aki = iss.key, !.skiOk = TRUE, !.tamper = "none", !.nb = 0, !.na = 2]
+                     good == [c EXCEPT !.sigKey = iss.key, !.aki = iss.key, !.skiOk = TRUE, !.tamper = "none", !.nb = 0, !.na = 4]
                  IN (AcceptChild(good, iss, now) /\ c # good /\ c.nb <= c.na /\ (c.nb > now \/ c.na < now \/ c.sigKey # iss.key \/ c.aki # iss.key \/ ~c.skiOk \/ c.tamper # "none"))
                        => ~certs[Len(certs)].ok
 Final == dead \/ Len(certs) = (IF Mode = "id-ta" THEN 1 ELSE IF Mode = "id-ca" THEN 2 ELSE 3)
-Emit == (certs # <<>> /\ Final) => PrintT(<<"REPLAY", ToJson([op |-> "chain", mode |-> Mode, now |-> now, certs |-> certs])>>)
+Emit == (certs # <<>> /\ Final) => PrintT(<<"REPLAY", ToJson([op |-> "chain", mode |-> Mode, unit |-> 2, now |-> now, certs |-> certs])>>)
 =============================================================================
